@@ -373,7 +373,8 @@ func (r *vfQaRun) send(b []byte, from int) {
 	r.te.write(&datagram{b: b, peerAddr: r.addrs[from-1]})
 }
 
-var vfQaSizes = [][2]int{{1200, 1200}, {1201, 1240}, {1243, 1243}, {1244, 1300}, {1301, 1472}, {300, 1199}, {1242, 1242}}
+var vfQaSizes = [][2]int{{1200, 1200}, {1201, 1240}, {1243, 1243}, {1244, 1300}, {1301, 1472}, {300, 1199}, {1242, 1242},
+	{1250, 1250}, {1350, 1350}}
 
 func (r *vfQaRun) size(class int) int {
 	if class < 0 || class >= len(vfQaSizes) {
@@ -762,7 +763,9 @@ func TestVerifQuicAmp(t *testing.T) {
 		}
 		rnd := env.Rand(sc.salt)
 		rav := rnd.Intn(5) < 2
-		chain := 1 + rnd.Intn(4)
+		// certificate chains of 1..12 certificates: the server's first flight is 1..7 datagrams,
+		// so one send burst can be larger than the allowance a single Initial buys
+		chain := []int{1, 2, 3, 4, 6, 9, 9, 12}[rnd.Intn(8)]
 		p := vfQaCatch(60*time.Second, func() {
 			synctest.Test(t, func(t *testing.T) {
 				r := vfQaNewRun(t, env, tn, rnd, rav, chain)
